@@ -98,7 +98,12 @@ def gen_cases(rng, n):
         doc = ed.gen_doc(rng)
         for _ in range(3):
             v = rng.choice(ed.VALUES)
-            cases.append({"doc": doc, "path": ed.gen_path(rng, doc), "v": [v[0], v[1]], "fmt": rng.choice(ed.FORMATS),
+            fmt = rng.choice(ed.FORMATS)
+            if rng.random() < 0.1:
+                # text spelled like a Python literal: quoted string literals, integer look-alikes (0x1F, 0o17, (1), - 5)
+                v = ("str", gen_literal_text(rng))
+                fmt = rng.choice(["DEFAULT", "DEFAULT", fmt])
+            cases.append({"doc": doc, "path": ed.gen_path(rng, doc), "v": [v[0], v[1]], "fmt": fmt,
                           "reload": rng.random() < 0.25})
     return cases
 
@@ -180,12 +185,31 @@ WORDS = ["true", "True", "TRUE", "false", "False", "None", "none", "null", "yes"
          "1234567890123456", "0.1", ".5", "5.", "x1", "_a", "if", "not", "a.", "a-", "lambda", "1 ", " 1", "--1", "+-1", "1.2.3"]
 
 
+# Texts spelled like Python literals (every text handed to set_value goes through ast.literal_eval): simple quoted string
+# literals, integer look-alikes (an int for literal_eval, a ValueError for int()) - both must end as THAT TEXT - and
+# neighbours of the two classes (mostly outside the model, then skipped and counted).
+LIT_TEXTS = ["'abc'", '"abc"', "''", '""', "'two words'", '"two words"', "'5'", '"true"', "'1.5'", "'None'", "'it\"s'", '"it\'s"',
+             "'x*'", "' pad '", "'é'", "'a.b'", "'#'", "'0x1F'",
+             "0x1F", "0X1f", "0x0", "0xdeadBEEF", "-0x10", "+0x10", "0o17", "0O7", "-0o17", "0b101", "0B0", "-0b1", "(1)", "(0)", "(12)",
+             "(-12)", "(+5)", "- 5", "+ 5", "- 0", "(300)",
+             "'a'b'", "'a\\nb'", "'abc", "abc'", "'", "'" * 3 + "a" + "'" * 3, "0x", "0xg", "0b102", "0o8", "0x1_f", "(1.5)", "(01)", "()",
+             "((1))", "( 1)", "-  5", "(True)", "[1]", "(1,2)", "1j", "b'ab'", "'a' 'b'"]
+
+
+def gen_literal_text(rng):
+    from harness.props import c09
+    return c09.gen_literal_text(rng)
+
+
 def table_check(chk):
     """typed_value / make_new_node / wrap_type of the real code against the model, on a complete small grid."""
     import itertools
     from yamlpath.common import Nodes
     from yamlpath.enums import YAMLValueFormats
-    texts = set(WORDS)
+    texts = set(WORDS) | set(LIT_TEXTS)
+    lrng = random.Random(chk.seed ^ 0x5EED)
+    lits = set(LIT_TEXTS) | set(gen_literal_text(lrng) for _ in range(300))
+    texts |= lits
     for n in range(0, 4):
         for t in itertools.product(TYPED_ALPHABET, repeat=n):
             texts.add("".join(t))
@@ -206,11 +230,24 @@ def table_check(chk):
             rj = {"k": "str"} if isinstance(real, str) and real == t else codec.scalar_to_json(real)
         except Exception:
             rj = {"k": "other", "v": repr(real)}
+        if a.get("lit") == "int-lookalike":
+            # the class is DEFINED as: literal_eval yields an int, int(text) raises ValueError
+            chk.count("typed:int-lookalike")
+            try:
+                int(t)
+                readable = True
+            except ValueError:
+                readable = False
+            if type(real) is int and not readable:
+                continue
+            rj = {"k": "not-an-int-lookalike", "v": repr(real)}
+        elif a.get("k") == "str" and "v" in a:
+            chk.count("typed:quoted-literal")
         if rj != a:
             bad += 1
             chk.disagreement("typed-value-table", "Nodes.typed_value(%r) = %r, model says %s" % (t, real, a), {"text": t})
     # make_new_node grid
-    vals = ed.VALUES + [("str", w) for w in WORDS]
+    vals = ed.VALUES + [("str", w) for w in WORDS] + [("str", w) for w in sorted(lits)]
     fmts = sorted(set(ed.FORMATS))
     reqs, metas = [], []
     for v in vals:
@@ -245,6 +282,12 @@ def table_check(chk):
         # wrap_type
         m = a["wrap"]
         if f == fmts[0] and m.get("err") != "outOfModel":
+            from harness.props import c09
+            if c09.is_int_lookalike(v[1]):
+                # wrap_type is the value of CREATED nodes: the pinned code lets the ValueError of ScalarInt(text) escape
+                # there (known finding C09-F4, judged by ./check C09 on creations; the model is as repaired)
+                chk.count("wrap:int-lookalike-left-to-C09")
+                continue
             chk.evaluations += 1
             res = ed.guarded(lambda: Nodes.wrap_type(v[1]))
             try:
